@@ -151,7 +151,7 @@ fn seq_spec(ctx: &Ctx) -> SeqSpec {
         world: Default::default(),
         prefix: vec![],
         alphabet: vec![put(1, 2), put_ttl(1, 3, 1500), del(1), put(2, 4), del(2), put_ttl(2, 1, 1000), adv(1000), adv(2000), Op::TickWait, get(1)],
-        depth: if ctx.quick() { 5 } else { 7 },
+        depth: if ctx.quick() { 6 } else { 7 },
         allow: None,
         oracle: seq_oracle(),
         keys: vec![1, 2],
